@@ -51,6 +51,8 @@ def form_text(sess, form):
 
 
 def describe(sess, mm):
+    if mm['kind'] == 'abort' and 'unreadable' in sess.get('tags', []):
+        return 'session %s (%s): %s; reproduce: %s' % (sess['id'], sess.get('kind'), sess.get('abort'), sess.get('reproduce'))
     if mm['kind'] == 'abort':
         return 'session %s (%s): host process aborted (%s); reproduce: %s' % (
             sess['id'], sess.get('kind'), sess.get('abort'), sess.get('reproduce'))
